@@ -42,6 +42,26 @@ func checkC16(c *Ctx, r *Report) {
 			}
 		}
 	}
+	// R16.7: a reply can only be addressed to "its" request if the bytes of a request split over
+	// several reads are still there when the rest arrives and every buffered request is answered
+	// in turn: the assembler loop rules of C15 (R15.3)
+	{
+		cls := c.fnMust("packet", "LooksLikeModbusTCP")
+		var step *ssa.Function
+		if node := c.callGraph().Nodes[cls]; node != nil {
+			for _, e := range node.In {
+				if e.Caller.Func.Pkg == c.pkg("server") {
+					step = e.Caller.Func
+				}
+			}
+		}
+		if step != nil {
+			tmp := newReport(r.Prop, r.Tier)
+			c15Loop(c, tmp, assemblerReceiveRead(c), step)
+			r.instance("R16.7", copyItems(tmp, r, "R15.3", "R16.7"))
+		}
+		r.floor("R16.7", 4)
+	}
 	c16Assembler(c, r)
 	c16Dispatcher(c, r)
 	c16ExceptionLayout(c, r)
